@@ -32,7 +32,11 @@ RULE = ("(a) storage traces of real writer lifetimes (SegmentWriter commit/cance
         "(d) thorough: races of 2-8 threads and 2-4 processes; (e) failed constructors: SegmentWriter.__init__ is made to "
         "raise after the acquire at each of its stages (TOC unreadable, temp storage, new_segment, per_document_writer, "
         "field_writer; File and RAM storage): the logged lifetime must satisfy the Lean TraceDiscipline (ends with the "
-        "release) and a second writer must then open and commit (non-trivial = the constructor raised after acquiring).")
+        "release) and a second writer must then open and commit (non-trivial = the constructor raised after acquiring); "
+        "(f) lock-primitive steps (FileStorage/flock): the holder's commit / cancel runs between os.open and fcntl.flock "
+        "of a waiting writer's attempt 1..3 (single-threaded, count-based injection), then a third writer must be "
+        "refused while the second is open, every commit must be in the index and the generation advance by one per "
+        "commit (non-trivial = the release was injected).")
 ASSUMPTIONS = [
     "flock / threading.Lock are exclusive; the OS releases a flock when the process dies",
     "fairness and time are not modelled: 'after the requested timeout' is checked on the real code only",
@@ -222,6 +226,13 @@ def _history_job(job):
                     zcount[0] += 1
                     ckey = u"z%d" % zcount[0]
                 r, secs, th = try_second(ix, tracer, timeout, commit_key=ckey)
+                if holding and r == "LockError" and th is None and secs > timeout + 1.0:
+                    # late because the lock polling is late, or because this thread was not scheduled
+                    # (loaded machine)?  The first writer still holds: measure the same attempt again
+                    # and keep the faster one (a real delay shows in both)
+                    r2, secs2, th2 = try_second(ix, tracer, timeout)
+                    if r2 == "LockError" and th2 is None:
+                        secs = min(secs, secs2)
                 if r == "acquired+committed":
                     zdone.append(ckey)
                     r = "acquired"
@@ -1221,6 +1232,180 @@ def _failed_constructors(ctx, scratch):
     _judge_discipline(ctx, lines, meta)
 
 
+# ------------------------------------------------------------------------------------------------
+# (f) the lock primitive step by step.  FcntlLock.acquire is two system calls (os.open of the lock
+# file, fcntl.flock on the descriptor); streams (b)-(d) only ever run another writer *between* whole
+# acquires.  Here the holder's commit / cancel (= its release) runs between the two calls of a
+# waiting writer's n-th polling attempt -- single-threaded and count-based (no timing): fcntl.flock
+# is wrapped for the duration of the case and only delays the call, it does not change its result.
+
+class _FlockSteps(object):
+    def __init__(self):
+        import fcntl
+        self.fcntl = fcntl
+        self.real = fcntl.flock
+        self.countdown = None
+        self.inject = None
+        self.fired = 0
+        self.attempts = 0
+
+    def __enter__(self):
+        self.fcntl.flock = self.flock
+        return self
+
+    def __exit__(self, *exc):
+        self.fcntl.flock = self.real
+
+    def arm(self, n, fn):
+        """run fn() right before the n-th exclusive flock request from now on"""
+        self.countdown, self.inject = n, fn
+
+    def flock(self, fd, op):
+        if op & self.fcntl.LOCK_EX:
+            self.attempts += 1
+            if self.countdown is not None:
+                self.countdown -= 1
+                if self.countdown <= 0:
+                    fn, self.countdown, self.inject = self.inject, None, None
+                    self.fired += 1
+                    fn()
+        return self.real(fd, op)
+
+
+LOCK_STEP_CASES = [(polls, ending) for polls in (0, 1, 2) for ending in ("commit", "cancel")] + [(0, "hold")]
+
+
+def lock_steps_job(job):
+    try:
+        return _lock_steps_job(job)
+    except Exception as e:  # noqa
+        import traceback
+        return {"job": job, "fired": 0, "bad": [("harness-step-raises", "case runs", "%s: %s" % (T.errname(e), str(e)[:200]),
+                                                 traceback.format_exc()[-1500:])]}
+
+
+def _lock_steps_job(job):
+    from whoosh import index
+    from whoosh.index import LockError
+    polls, ending = job["polls"], job["ending"]
+    base = tempfile.mkdtemp(prefix="c04l-", dir=job["scratch"])
+    bad = []
+    opened = []
+    try:
+        st = T.TracingFileStorage(os.path.join(base, "ix"))
+        os.makedirs(st.folder)
+        st.tracer.enabled = False
+        index.FileIndex.create(st, T.make_schema(), IX)
+        ix = index.FileIndex(st, indexname=IX)
+        w0 = ix.writer()
+        w0.add_document(k=u"k0", t=u"alfa", g=u"alfa", n=0)
+        w0.commit()
+        g0 = ix.latest_generation()
+        want = [u"k0"]
+        commits = 0
+
+        def attempt(**kw):
+            try:
+                w = ix.writer(**kw)
+                opened.append(w)
+                return w
+            except LockError:
+                return None
+
+        with _FlockSteps() as steps:
+            a = ix.writer()
+            opened.append(a)
+            a.add_document(k=u"ka", t=u"bravo", g=u"alfa", n=1)
+            a_open = [True]
+
+            def release_a():
+                if ending == "commit":
+                    a.commit()
+                elif ending == "cancel":
+                    a.cancel()
+                if ending != "hold":
+                    a_open[0] = False
+            # B's attempt number polls+1 has opened the lock file when A finishes
+            steps.arm(polls + 1, release_a)
+            if polls == 0:
+                b = attempt(timeout=0.0)
+            else:
+                b = attempt(timeout=120.0, delay=0.001)
+            fired = steps.fired
+            if ending == "commit":
+                want.append(u"ka")
+                commits += 1
+            open_now = int(a_open[0]) + int(b is not None)
+            if open_now > 1:
+                bad.append(("mutual-exclusion:writer-handed-out-while-the-holder-is-open", "LockError", "a writer",
+                            "the holder never released"))
+            if ending != "hold" and b is None:
+                bad.append(("lock-steps:waiting-writer-refused-after-release", "a writer (the holder released before the "
+                            "lock request)", "LockError", ""))
+            # a third writer while one is open: must be refused (single attempt and polling)
+            if open_now >= 1:
+                for kw in ({"timeout": 0.0}, {"timeout": 0.02, "delay": 0.001}):
+                    c = attempt(**kw)
+                    if c is not None:
+                        holder = "the waiting writer (lock requested on the file it had opened before the release)" \
+                            if b is not None else "the first writer"
+                        bad.append(("mutual-exclusion:third-writer-handed-out-while-a-writer-is-open",
+                                    "LockError", "ix.writer(%r) returned a writer for generation %r while %s is open on "
+                                    "generation %r" % (kw, c.generation, holder, (b or a).generation),
+                                    "release of the holder between os.open and fcntl.flock of the waiting writer's "
+                                    "attempt %d; lock file listed: %r"
+                                    % (polls + 1, [n for n in os.listdir(st.folder) if "LOCK" in n])))
+                        c.cancel()
+                        break
+            for w, keys in ((b, [u"kb"]), (a if a_open[0] else None, [u"kc", u"ka"])):
+                if w is not None:
+                    try:
+                        w.add_document(k=keys[0], t=u"charlie", g=u"bravo", n=2)
+                        w.commit()
+                        want.extend(keys)
+                        commits += 1
+                    except Exception as e:  # noqa
+                        bad.append(("lock-steps:commit-raises", "commit succeeds", "%s: %s" % (T.errname(e), str(e)[:120]), ""))
+            d = attempt(timeout=0.0)
+            if d is None:
+                bad.append(("lock-still-held-after-all-writers-finished:lock-steps", "a writer", "LockError", ""))
+            else:
+                d.cancel()
+        with ix.searcher() as s:
+            got = sorted(sf["k"] for sf in s.reader().all_stored_fields())
+        if got != sorted(want):
+            bad.append(("lost-update:lock-steps", sorted(want), got, ""))
+        if ix.latest_generation() != g0 + commits:
+            bad.append(("generation:lock-steps", g0 + commits, ix.latest_generation(), "%d commits" % commits))
+    finally:
+        for w in opened:
+            try:
+                if not w.is_closed:
+                    w.cancel()
+            except Exception:
+                pass
+        shutil.rmtree(base, ignore_errors=True)
+    return {"job": job, "fired": fired, "bad": bad}
+
+
+def _lock_steps(ctx, scratch, only=None):
+    try:
+        import fcntl  # noqa
+    except ImportError:
+        ctx.note("lock-steps stream skipped: no fcntl on this platform")
+        return
+    cases = LOCK_STEP_CASES if only is None else [(only["polls"], only["ending"])]
+    jobs = [{"polls": p, "ending": e, "scratch": scratch} for p, e in cases]
+    for res in ctx.pmap(lock_steps_job, jobs):
+        job = res["job"]
+        ctx.case(("lock-steps", job["polls"], job["ending"]), nontrivial=res["fired"] > 0)
+        ctx.stat("lock-steps:" + ("release-injected" if res["fired"] else "not-injected"))
+        case = {"stream": "lock-steps", "seed": "lock-steps", "storage": "file", "polls": job["polls"],
+                "ending": job["ending"]}
+        for sig, expected, observed, desc in res["bad"]:
+            ctx.violation(sig, case, expected, observed, desc)
+
+
 BLOCKED_STORAGES = set()
 
 
@@ -1229,6 +1414,7 @@ def run(ctx):
     with ctx.scratch() as scratch:
         BLOCKED_STORAGES.update(_canary(ctx, scratch))
         _failed_constructors(ctx, scratch)
+        _lock_steps(ctx, scratch)
         _main(ctx, scratch, "main", ctx.budget(48, 160), ctx.budget(4, 6), ctx.budget(2, 1))
         if ctx.tier == "thorough":
             jobs = []
@@ -1336,6 +1522,8 @@ def _replay_case(ctx, rec, scratch):
     before = len(ctx.violations) + len(ctx.divergences)
     if case.get("stream") == "failed-init":
         _failed_constructors(ctx, scratch)
+    elif case.get("stream") == "lock-steps":
+        _lock_steps(ctx, scratch, only=case)
     elif case.get("stream") == "schedules" or "sched" in case:
         _judge_schedules(ctx, [schedule_job({"seed": case["seed"], "ram": case.get("storage") == "ram", "scratch": scratch})])
     elif "kind" in case:
